@@ -154,6 +154,13 @@ Definition client_ip (r : router) (ctx_route : option route) : cip :=
   | RSome i => CIP i
   end.
 
+(* the part of cTx this property needs *)
+Record ctx := mkCtx { cx_route : option route }.
+Definition clone (c : ctx) : ctx := mkCtx (cx_route c).          (* Clone: route: c.route (context.go:340) *)
+Definition clone_with (c : ctx) : ctx := mkCtx (cx_route c).     (* CloneWith: cp.route = c.route (context.go:380) *)
+(* ClientIP() and Route().Pattern() on a context *)
+Definition view_of (r : router) (c : ctx) : view := (client_ip r (cx_route c), option_map rt_pattern (cx_route c)).
+
 Definition create (r : router) (pats : list bytes) (t : table) (v : via) (key : nat) (handler : bool) (opts : list ropt)
   : table * obs :=
   let p := nth key pats [] in
@@ -188,13 +195,17 @@ Definition run_op (r : router) (pats : list bytes) (t : table) (o : op) : table 
   | OCreate v key handler opts => create r pats t v key handler opts
   | OProbe key p =>
       (t, match lookup key t with
-          | None => ObsProbe KNoRoute (client_ip r None)
+          | None => let v := view_of r (mkCtx None) in ObsProbe KNoRoute v (view_of r (clone (mkCtx None))) (view_of r (clone_with (mkCtx None))) None
           | Some rt =>
               let k := dispatch_kind (rt_ignore rt) (rt_redirect rt) (g_noMethod r) (g_autoOptions r) p in
+              (* ServeHTTP: c.route = n.route before n.route.hall(c); c.route = nil before every other handler *)
+              let c := mkCtx (match k with KRoute => Some rt | _ => None end) in
+              (* the probing middleware reads c, c.Clone(), c.CloneWith(..) and calls next with the CloneWith copy *)
+              let cw := clone_with c in
               match k with
-              | KRoute => if rt_handler rt then ObsProbe KRoute (client_ip r (Some rt))   (* c.route = n.route; n.route.hall(c) *)
+              | KRoute => if rt_handler rt then ObsProbe k (view_of r c) (view_of r (clone c)) (view_of r cw) (Some (view_of r cw))
                           else ObsPanic                                                     (* calling a nil HandlerFunc *)
-              | _ => ObsProbe k (client_ip r None)                                          (* c.route = nil *)
+              | _ => ObsProbe k (view_of r c) (view_of r (clone c)) (view_of r cw) None
               end
           end)
   | OAnnotGet key k =>
